@@ -36,13 +36,30 @@ func c12ModName(i int, file bool) string {
 	return fmt.Sprintf("m%d", i)
 }
 
-func c12Source(mods []c12Mod, i int) string {
+// c12Spell returns one of several equivalent spellings of a file module's name: FileImporter resolves all of them
+// to the same absolute path, so they name the same module.
+func c12Spell(t *sim.Tape, m c12Mod) string {
+	if !m.file || t == nil {
+		return m.name
+	}
+	switch t.Draw(4) {
+	case 1:
+		return "./" + m.name
+	case 2:
+		return "sub/../" + m.name
+	case 3:
+		return "/sim/" + m.name
+	}
+	return m.name
+}
+
+func c12Source(t *sim.Tape, mods []c12Mod, i int) string {
 	m := mods[i]
 	var sb strings.Builder
 	sb.WriteString("rec := import(\"rec\")\n")
 	fmt.Fprintf(&sb, "rec.body(%d)\n", i)
 	for _, d := range m.topDeps {
-		fmt.Fprintf(&sb, "d%d := import(%q)\n", d, mods[d].name)
+		fmt.Fprintf(&sb, "d%d := import(%q)\n", d, c12Spell(t, mods[d]))
 	}
 	fmt.Fprintf(&sb, "rec.mop(%d)\n", i)
 	sb.WriteString("state := {n: 0}\n")
@@ -53,7 +70,7 @@ func c12Source(mods []c12Mod, i int) string {
 		sb.WriteString("\tdepinc: func() { return -1 },\n")
 	}
 	if m.lazyDep >= 0 {
-		fmt.Fprintf(&sb, "\tlazy: func() { x := import(%q); return x.inc() },\n", mods[m.lazyDep].name)
+		fmt.Fprintf(&sb, "\tlazy: func() { x := import(%q); return x.inc() },\n", c12Spell(t, mods[m.lazyDep]))
 	} else {
 		sb.WriteString("\tlazy: func() { return -1 },\n")
 	}
@@ -63,18 +80,18 @@ func c12Source(mods []c12Mod, i int) string {
 	return sb.String()
 }
 
-func c12Driver(mods []c12Mod, steps int, topImports []int, stride int) string {
+func c12Driver(t *sim.Tape, mods []c12Mod, steps int, topImports []int, stride int) string {
 	var sb strings.Builder
 	sb.WriteString(sim.Prelude)
 	sb.WriteString("h := import(\"host\")\nh.arr[0] += 1\nh.map.k += 1\nlog(\"h\", h.arr[0], h.map.k)\n")
 	for _, k := range topImports {
 		// an import of the same module earlier in the same function scope that may or may not execute
-		fmt.Fprintf(&sb, "try { if choose(5) > 2 { p%d := import(%q); log(\"pre\", %d, p%d.inc()) } } catch e { log(\"prefail\", %d, e.Message) }\n", k, mods[k].name, k, k, k)
-		fmt.Fprintf(&sb, "try { t%d := import(%q); log(\"top\", %d, t%d.inc()) } catch e { log(\"topfail\", %d, e.Message) }\n", k, mods[k].name, k, k, k)
+		fmt.Fprintf(&sb, "try { if choose(5) > 2 { p%d := import(%q); log(\"pre\", %d, p%d.inc()) } } catch e { log(\"prefail\", %d, e.Message) }\n", k, c12Spell(t, mods[k]), k, k, k)
+		fmt.Fprintf(&sb, "try { t%d := import(%q); log(\"top\", %d, t%d.inc()) } catch e { log(\"topfail\", %d, e.Message) }\n", k, c12Spell(t, mods[k]), k, k, k)
 	}
 	sb.WriteString("imps := [\n")
 	for _, m := range mods {
-		fmt.Fprintf(&sb, "\tfunc() { return import(%q) },\n", m.name)
+		fmt.Fprintf(&sb, "\tfunc() { return import(%q) },\n", c12Spell(t, m))
 	}
 	sb.WriteString("]\n")
 	fmt.Fprintf(&sb, "for step := 0; step < %d; step++ {\n", steps)
@@ -292,7 +309,7 @@ func c12Run(rc *sim.RunCtx) {
 	}
 	sources := map[string]string{}
 	for i := range mods {
-		sources[mods[i].name] = c12Source(mods, i)
+		sources[mods[i].name] = c12Source(t, mods, i)
 	}
 	if negative == 2 {
 		k := t.Draw(n)
@@ -309,7 +326,7 @@ func c12Run(rc *sim.RunCtx) {
 		for nm, src := range sources {
 			sources[nm] = strings.ReplaceAll(src, fmt.Sprintf("%q", old), fmt.Sprintf("%q", mods[k].name))
 		}
-		sources[mods[k].name] = strings.ReplaceAll(c12Source(mods, k), fmt.Sprintf("%q", old), fmt.Sprintf("%q", mods[k].name))
+		sources[mods[k].name] = strings.ReplaceAll(c12Source(nil, mods, k), fmt.Sprintf("%q", old), fmt.Sprintf("%q", mods[k].name))
 		if old != mods[k].name {
 			delete(sources, old)
 		}
@@ -327,7 +344,7 @@ func c12Run(rc *sim.RunCtx) {
 	if negative != 0 && len(topImports) == 0 {
 		topImports = []int{0}
 	}
-	driver := c12Driver(mods, steps, topImports, stride)
+	driver := c12Driver(t, mods, steps, topImports, stride)
 
 	// host world
 	spec := &sim.WorldSpec{Name: "w0"}
@@ -507,7 +524,7 @@ func init() {
 	sim.Register(&sim.Engine{
 		ID:    "C12",
 		Level: "exploration",
-		Rule: "each run draws an import graph over 2–8 source modules (edges from lower to higher index: imports at the top of a body and imports inside exported functions; a quarter of the modules are files behind importers.FileImporter with a simulated FileReader), compiles a driver whose loop lets the host choose at every step the module, the route (direct call of an import site or through a child VM) and the action (inc/get own state, inc through a dependency's import, import-and-inc inside a function, increment a builtin-module value through the module's or the main script's import), and may make a module body fail on its first attempt. " +
+		Rule: "each run draws an import graph over 2–8 source modules (edges from lower to higher index: imports at the top of a body and imports inside exported functions; a quarter of the modules are files behind importers.FileImporter with a simulated FileReader, named through several equivalent relative and absolute spellings), compiles a driver whose loop lets the host choose at every step the module, the route (direct call of an import site or through a child VM) and the action (inc/get own state, inc through a dependency's import, import-and-inc inside a function, increment a builtin-module value through the module's or the main script's import), and may make a module body fail on its first attempt. " +
 			"Oracle: history and outcome equal a model in which a body runs once per successful load (a failed body may start again) and every import of a module reaches one shared state; a second VM of the same Bytecode behaves identically (builtin-module values private). " +
 			"3/7 of the runs are negative graphs — a cycle of drawn length (closed through a top-level or an in-function import), an unknown module, a failing file read — which Compile must reject (30 s watchdog). Swarm: optimizer on/off, encode/decode round trip. Distinct = distinct (graph, choice table, fault table).",
 		Assumptions: []string{"module bodies report through a builtin module (source modules cannot see globals)", "the model (≈80 lines) encodes: load = body + top-level deps in order + possible failure; state per module is one counter"},
